@@ -46,10 +46,12 @@ func c14LinesDecl(ignore bool) *decl.Decl {
 			{Field: "L", Long: "list", Type: decl.TStrings},
 			{Field: "M", Long: "map", Type: decl.TMapSI},
 			{Field: "B", Long: "bool", Type: decl.TBool},
+			{Field: "Ch", Long: "choice", Type: decl.TString, Choices: []string{"red", "green"}},
 		}}
 		top.Groups = []*decl.Group{{Field: "Grp", Name: "Grp", Opts: []*decl.Opt{{Field: "G", Long: "gopt", Type: decl.TString}}}}
 		top.Cmds = []*decl.Cmd{{Field: "Cmd", Name: "cmd", Opts: []*decl.Opt{{Field: "C", Long: "copt", Type: decl.TString}}},
-			{Field: "Up", Name: "UpCmd", Opts: []*decl.Opt{{Field: "U", Long: "uopt", Type: decl.TString}}}}
+			{Field: "Up", Name: "UpCmd", Opts: []*decl.Opt{{Field: "U", Long: "uopt", Type: decl.TString}}},
+			{Field: "Dot", Name: "db.migrate", Opts: []*decl.Opt{{Field: "D", Long: "dopt", Type: decl.TString}}}}
 		top.SubOptional = true
 		d := &decl.Decl{Top: top}
 		if ignore {
@@ -69,15 +71,27 @@ var c14Long = map[string]string{
 	"<10000>": strings.Repeat("y", 10000),
 	"<4092>":  strings.Repeat("z", 4092), // "S = " + 4092 bytes = a line of exactly one read buffer
 	"<8188>":  strings.Repeat("w", 8188), // exactly two read buffers
+	"<70000>": strings.Repeat("v", 70000),
 }
 
 // line alphabet: valid entries, headers, noise, faults
 var c14Lines = []string{
 	"S = a", "I = 5", "L = x", "M = k:1", "B = true", `S = "q z"`, "G = g", "C = c",
-	"[Application Options]", "[Grp]", "[cmd]", "[UpCmd]", "U = u",
+	"[Application Options]", "[Grp]", "[cmd]", "[UpCmd]", "U = u", "[db.migrate]", "D = d", "Ch = red", "Ch = blue", "# <70000>",
 	"", "   ", "; c", "# c = 1", "; <4095>", "# <4096>", "S = <4097>", "; <10000>", "S = <4092>", "S = <8188>",
 	"nokey", `S = "abc`, "[open", "[]", "Zzz = 1", "I = x", "M = k:", "[Nope]", "  L  =  y  ",
 }
+
+var c14AllIdx, c14ShortIdx = func() ([]int, []int) {
+	var all, short []int
+	for i, l := range c14Lines {
+		all = append(all, i)
+		if !strings.Contains(l, "<") {
+			short = append(short, i)
+		}
+	}
+	return all, short
+}()
 
 func c14Expand(line string) string {
 	for k, v := range c14Long {
@@ -200,8 +214,12 @@ func init() {
 		n := c.Choose(maxLines + 1)
 		var lines []string
 		var idx []int
+		pool := c14AllIdx
+		if n == maxLines {
+			pool = c14ShortIdx // files of maximal length are built from the short lines only
+		}
 		for i := 0; i < n; i++ {
-			k := c.Choose(len(c14Lines))
+			k := pool[c.Choose(len(pool))]
 			idx = append(idx, k)
 			lines = append(lines, c14Expand(c14Lines[k]))
 		}
@@ -246,13 +264,13 @@ func init() {
 		ShardDepth: 4,
 		Body:       body,
 		Rule: "(i) every byte string of length <= 6 (quick) / <= 7 (thorough) over {[ ] = \" : ; # space LF CR a \\ 0xFF} read into a declaration whose option, ini-name and group are reachable over that alphabet (map option a, group a, ini-name aa); " +
-			"(ii) every file of <= 4 (quick) / <= 5 (thorough) lines over 32 lines: 8 valid entries (scalar, int, slice, map, bool, quoted, group and command options), 3 headers, 8 noise lines (empty, blanks, ; and # comments, 4095/4096/10000-byte comments, a 4097-byte value) and 2 entries whose line is exactly one / two read buffers long (4096 / 8192 bytes), " +
+			"(ii) every file of <= 3 (quick) / <= 4 (thorough) lines over 37 lines, and of 4 / 5 lines over the 28 of them that are short: 8 valid entries (scalar, int, slice, map, bool, quoted, group and command options), 3 headers, 8 noise lines (empty, blanks, ; and # comments, 4095/4096/10000-byte comments, a 4097-byte value) and 2 entries whose line is exactly one / two read buffers long (4096 / 8192 bytes), " +
 			"9 faults (no '=', bad quoting, open header, empty header, unknown option, unconvertible int, empty map value, unknown section, padded entry) x LF/CRLF x final newline present/absent; both with and without IgnoreUnknown; " +
 			"oracle: returns normally; reference reader: no fault => no error and the values the entries denote (noise and line ends change nothing); faults => the error is one of them, IniError carrying exactly its 1-based line or ErrUnknownGroup; the first syntax fault always wins; " +
 			"distinct = distinct (error class, fault list, assigned options)",
 		Assumptions:  []string{"options assigned from more than one section are not compared (section order is C15's subject)", "values are not compared once an error is returned"},
 		RequiredHits: []string{"clean", "single-fault", "crlf", "long-line", "fault:unknown option", "fault:unconvertible value", "fault:unknown section", "fault:bad quoting", "fault:no key=value", "fault:section header"},
-		Bound:        [2]string{"byte strings <= 6; files <= 4 lines", "byte strings <= 7; files <= 5 lines"},
+		Bound:        [2]string{"byte strings <= 6; files <= 3 lines (4 without the long lines)", "byte strings <= 7; files <= 4 lines (5 without the long lines)"},
 		BudgetS:      [2]int{100, 1500},
 	})
 }
